@@ -56,8 +56,13 @@ static inline uint64_t bits_of(float a) { return b32(a); }
 static inline uint64_t bits_of(double a) { return b64(a); }
 static inline uint64_t bits_of(bool a) { return a; }
 template <typename A> static inline bool same_value(A a, A b) { return a == b; }
+#ifdef C03_STRICT_ZERO   // development aid: also distinguish +0 from -0 (not demanded by the property)
+static inline bool same_value(float a, float b) { return same32(a, b); }
+static inline bool same_value(double a, double b) { return same64(a, b); }
+#else
 static inline bool same_value(float a, float b) { return value32(a, b); }
 static inline bool same_value(double a, double b) { return value64(a, b); }
+#endif
 template <typename A> static inline bool is_nan(A) { return false; }
 static inline bool is_nan(float a) { return a != a; }
 static inline bool is_nan(double a) { return a != a; }
@@ -76,6 +81,11 @@ template <> struct VL<double> { static std::vector<double> spec() { std::vector<
   static std::vector<double> mod() { return {0., 1., -1., 0.5, -0.5, 2., -2., 3., -3., 0.1, -0.1, 1. / 3, -1. / 3, 3.141592653589793, -2.718281828459045, 7., -7., 100., -100., 1e-3, -1e-3, 1.0000000000000002, 0.99999999999999989, 255., -256., 1.5, -2.5, 0.75, 12345.678, -0.001953125, 65536., 1e-6, -1e6}; } };
 template <typename T> static const std::vector<T>& spec() { static const std::vector<T> v = VL<T>::spec(); return v; }
 template <typename T> static const std::vector<T>& modv() { static const std::vector<T> v = VL<T>::mod(); return v; }
+// EDGE lattices (thorough tier): F32_EDGE / reduced F64_EDGE / INT32_EDGE of the engine, as values
+template <typename T> struct EL { static std::vector<T> make() { std::vector<T> v; for (uint64_t b : int_edge_values(32)) v.push_back((T)(uint32_t)b); return v; } };
+template <> struct EL<float> { static std::vector<float> make() { Domain d = F32_EDGE(); std::vector<float> v; v.reserve(d.size); for (uint64_t i = 0; i < d.size; ++i) { uint64_t w; d.at(i, &w); v.push_back(f32(w)); } return v; } };
+template <> struct EL<double> { static std::vector<double> make() { Domain d = F64_EDGE(false); std::vector<double> v; v.reserve(d.size / 4 + 1); for (uint64_t i = 0; i < d.size; i += 4) { uint64_t w; d.at(i, &w); v.push_back(f64(w)); } return v; } };
+template <typename T> static const std::vector<T>& edgev() { static const std::vector<T> v = EL<T>::make(); return v; }
 template <typename T> static const std::vector<T>& shiftv() { static const std::vector<T> v = [] { std::vector<T> r; for (int i = 0; i < 32; ++i) r.push_back((T)i); return r; }(); return v; }   // every shift count 0..31
 template <typename T> static inline T pick(const std::vector<T>& v, uint64_t base, int lane, int salt) { return v[(base + (uint64_t)lane * (17 + 12 * salt)) % v.size()]; }
 
@@ -83,7 +93,7 @@ template <typename T> static inline T pick(const std::vector<T>& v, uint64_t bas
 template <typename T> struct Pad { static T v(int i) { const T p[3] = {(T)0, std::numeric_limits<T>::min(), (T)-1}; return p[i % 3]; } };   // int: 0 (division trap), INT_MIN, -1
 template <> struct Pad<float> { static float v(int i) { const float p[3] = {std::numeric_limits<float>::quiet_NaN(), FLT_MAX, 0.f}; return p[i % 3]; } };
 template <> struct Pad<double> { static double v(int i) { const double p[3] = {std::numeric_limits<double>::quiet_NaN(), DBL_MAX, 0.}; return p[i % 3]; } };
-template <class V, typename T> static inline void prefill(unsigned char* buf, T pad) { for (size_t i = 0; i + sizeof(T) <= sizeof(V); i += sizeof(T)) std::memcpy(buf + i, &pad, sizeof(T)); }
+template <class V, typename T> static inline void prefill(unsigned char* buf, T pad) { for (size_t i = 0; i + sizeof(T) <= sizeof(V); i += sizeof(T)) std::memcpy(buf + i, &pad, sizeof(T)); __asm__ __volatile__("" : : "r"(buf) : "memory"); }   // the barrier keeps the stores: the object constructed in place afterwards finds them in its 4th lane
 enum { NPATH3 = 8, NPATH4 = 3 };
 // aligned vec3 through API-reachable paths only (never by writing .data): the member-wise constructors leave the 4th lane as
 // found in the destination memory, which is modelled by constructing in place over memory holding a chosen value.
@@ -136,7 +146,7 @@ template <typename R> static bool lane_cmp(Ctx& c, int lane, R got, R want, R ex
   double g = (double)got, w = (double)want, e = (double)exact;
   if (lowp_approx) {                                                      // lowp may use rcp/rsqrt: relative error <= 2^-11
     double allowed = (mode == EXACT ? std::ldexp(1.0, -11) * std::fabs(e) : tol + std::ldexp(1.0, -11) * mag) + tiny<R>();
-    if (fin_(got) && ((fin_(exact) && std::fabs(g - e) <= allowed) || (fin_(want) && std::fabs(g - w) <= allowed))) { measure("lowp allowance (fraction used)", std::min(std::fabs(g - e), std::fabs(g - w)) / allowed); return true; }
+    if (fin_(got) && ((fin_(exact) && std::fabs(g - e) <= allowed) || (fin_(want) && std::fabs(g - w) <= allowed))) { measure((std::string("lowp allowance used by ") + c.op).c_str(), std::min(std::fabs(g - e), std::fabs(g - w)) / allowed); return true; }
     return fail(c, lane, bits_of(got), bits_of(exact), "lowp result is neither within 2^-11 (relative) of the exact packed_highp result nor of the packed_lowp result; want = packed_highp");
   }
   if (mode == EXACT) return fail(c, lane, bits_of(got), bits_of(want), "values must be identical");
@@ -194,7 +204,8 @@ template <class OP, typename T, int L, int K, int N, int SH> static bool lw_one(
   return true;
 }
 template <class OP, typename T, int N, int SH, int LAT> static void op_lw(const Case& c, Outcome& o) {
-  const std::vector<T>& lat = LAT == 1 ? modv<T>() : spec<T>(); const std::vector<T>& lat1 = LAT == 2 ? shiftv<T>() : lat; int checked = 0; uint64_t idx[3] = {c.w[0], N > 1 ? c.w[1] : 0, N > 2 ? c.w[2] : 0};
+  const bool edge = c.n > N && c.w[N] == 1;     // thorough tier: an extra word selects the EDGE lattice
+  const std::vector<T>& lat = edge ? edgev<T>() : LAT == 1 ? modv<T>() : spec<T>(); const std::vector<T>& lat1 = LAT == 2 ? shiftv<T>() : lat; int checked = 0; uint64_t idx[3] = {c.w[0], N > 1 ? c.w[1] : 0, N > 2 ? c.w[2] : 0};
   bool ok = lw_one<OP, T, 4, 0, N, SH>(lat, lat1, idx, o, checked) && lw_one<OP, T, 3, 0, N, SH>(lat, lat1, idx, o, checked) && lw_one<OP, T, 4, 2, N, SH>(lat, lat1, idx, o, checked) && lw_one<OP, T, 3, 2, N, SH>(lat, lat1, idx, o, checked)
          && lw_one<OP, T, 4, 1, N, SH>(lat, lat1, idx, o, checked) && lw_one<OP, T, 3, 1, N, SH>(lat, lat1, idx, o, checked);
   (void)ok; if (!checked) o.nontrivial = false;
@@ -204,6 +215,8 @@ template <class OP, typename T, int N, int SH, int LAT> static void RL(Engine& E
   static const char* shapes[8] = {"", " (scalar first arg)", " (scalar 2nd arg)", " (scalar, scalar, vec)", " (vec, vec, scalar)", "", " (vec, scalar, scalar)", ""};
   Op& op = E.add(std::string(OP::name()) + shapes[SH] + " <" + TN<T>::n() + "> vec3(8 operand paths)/vec4 x aligned_{highp,mediump,lowp} vs packed, " + (LAT == 1 ? "moderate values" : LAT == 2 ? "special values x shift counts" : "special values"), op_lw<OP, T, N, SH, LAT>);
   std::vector<Domain> d; for (int n = 0; n < N; ++n) d.push_back(DL<T>(LAT == 2 ? (n ? 2 : 0) : LAT)); op.quick = {N == 1 ? d[0] : product(std::string(LAT == 1 ? "MOD^" : LAT == 2 ? "SPEC x SHIFT counts 0..31 ^" : "SPEC^") + std::to_string(N), d)};
+  if (LAT != 1 && (N == 1 || (N == 2 && std::is_integral<T>::value))) { Domain e = range("EDGE<" + std::to_string(edgev<T>().size()) + ">", 0, edgev<T>().size(), false), sel = range("edge-lattice", 1, 1, true);
+    op.thorough = {op.quick[0], N == 1 ? product("EDGE lattice", {e, sel}) : product(LAT == 2 ? "EDGE x SHIFT counts" : "EDGE^2", {e, LAT == 2 ? d[1] : e, sel})}; }
 }
 
 #define KIND_DEFAULT (is_nan(a) || is_nan(b) || is_nan(c)) ? 1 : 0
@@ -231,7 +244,7 @@ FN(radians, EXACT, 0, 0, true, 0) FN(degrees, EXACT, 0, 0, true, 0)
 FN(mod, TOL, 1, 4, fin_(a) && fin_(b) && b != 0, std::fabs(x) + std::fabs(y * std::floor(x / y)))
 FN(mix, TOL, 0, 4, fin_(a) && fin_(b) && fin_(c), std::fabs(x * (1.0 - z)) + std::fabs(y * z) + std::fabs(x))
 FN(smoothstep, TOL, 1, 16, fin_(a) && fin_(b) && fin_(c) && a < b, 3.0)
-FN(fma, TOL, 0, 4, fin_(a) && fin_(b) && fin_(c) && std::fabs((double)a * (double)b) <= (double)std::numeric_limits<T>::max() / 4 && std::fabs((double)c) <= (double)std::numeric_limits<T>::max() / 4, std::fabs(x * y) + std::fabs(z))
+FN(fma, TOL, 0, 8, fin_(a) && fin_(b) && fin_(c) && std::fabs((double)a * (double)b) <= (double)std::numeric_limits<T>::max() / 4 && std::fabs((double)c) <= (double)std::numeric_limits<T>::max() / 4, std::fabs(x * y) + std::fabs(z))
 // integer functions
 FN(bitCount, EXACT, 0, 0, true, 0) FN(bitfieldReverse, EXACT, 0, 0, true, 0) FN(findLSB, EXACT, 0, 0, true, 0) FN(findMSB, EXACT, 0, 0, true, 0)
 // operators (scalar operands broadcast)
@@ -288,7 +301,7 @@ struct G_cross { static const char* name() { return "cross"; } enum { NV = 2, MO
 struct G_normalize { static const char* name() { return "normalize"; } enum { NV = 1, MODE = TOL, LOWP = 1, L4 = 1 }; static double C() { return 16; }
   template <class V, class T> static auto f(const V& a, const V&, const V&, T) -> decltype(glm::normalize(a)) { return glm::normalize(a); }
   template <class T> static bool dom(const T (*v)[4], T, int L) { return allfin(v, 1, L) && adot(v[0], v[0], L) > 0; } template <class T> static double mag(const T (*v)[4], T, int L, int k, double) { return std::fabs((double)v[0][k]) / std::sqrt(adot(v[0], v[0], L)); } };
-struct G_reflect { static const char* name() { return "reflect"; } enum { NV = 2, MODE = TOL, LOWP = 0, L4 = 1 }; static double C() { return 8; }
+struct G_reflect { static const char* name() { return "reflect"; } enum { NV = 2, MODE = TOL, LOWP = 0, L4 = 1 }; static double C() { return 16; }
   template <class V, class T> static auto f(const V& I, const V& N, const V&, T) -> decltype(glm::reflect(I, N)) { return glm::reflect(I, N); }
   template <class T> static bool dom(const T (*v)[4], T, int L) { return allfin(v, 2, L); } template <class T> static double mag(const T (*v)[4], T, int L, int k, double) { return std::fabs((double)v[0][k]) + 2 * std::fabs((double)v[1][k]) * adot(v[0], v[1], L); } };
 
@@ -398,9 +411,9 @@ template <typename T, int S, int K> static bool mat_one(const T (*a)[4], const T
 #else
     const bool prod = !std::is_same<T, double>::value;
 #endif
-    if (prod) { MCHK("mat * mat", 0, aa * ab, pa * pb, xa * xb, TOL, 8, false, [&](int l) { double m = 0; for (int q = 0; q < S; ++q) m += std::fabs((double)a[q][l % 4] * (double)b[l / 4][q]); return m; }) }
-    MCHK("mat * vec", 0, aa * av, pa * pv, xa * xv, TOL, 8, false, [&](int r) { double m = 0; for (int q = 0; q < S; ++q) m += std::fabs((double)a[q][r] * (double)v[q]); return m; })
-    MCHK("vec * mat", 0, av * aa, pv * pa, xv * xa, TOL, 8, false, [&](int cc) { double m = 0; for (int q = 0; q < S; ++q) m += std::fabs((double)a[cc][q] * (double)v[q]); return m; })
+    if (prod) { MCHK("mat * mat", 0, aa * ab, pa * pb, xa * xb, TOL, 16, false, [&](int l) { double m = 0; for (int q = 0; q < S; ++q) m += std::fabs((double)a[q][l % 4] * (double)b[l / 4][q]); return m; }) }
+    MCHK("mat * vec", 0, aa * av, pa * pv, xa * xv, TOL, 16, false, [&](int r) { double m = 0; for (int q = 0; q < S; ++q) m += std::fabs((double)a[q][r] * (double)v[q]); return m; })
+    MCHK("vec * mat", 0, av * aa, pv * pa, xv * xa, TOL, 16, false, [&](int cc) { double m = 0; for (int q = 0; q < S; ++q) m += std::fabs((double)a[cc][q] * (double)v[q]); return m; })
     MCHK("determinant", 0, glm::determinant(aa), glm::determinant(pa), glm::determinant(xa), TOL, 16, false, [&](int) { return (double)per; })
     if (fabsl(det) > 256 * unit<T>() * per) {       // inverse: each entry is cofactor / determinant; both carry the rounding of their own expansion
       MCHK("inverse", 0, glm::inverse(aa), glm::inverse(pa), glm::inverse(xa), TOL, 16, false, [&](int l) { minor_of<T, S>(a, l % 4, l / 4, tmp); long double pm = ldet(tmp, S - 1, true), cf = fabsl(ldet(tmp, S - 1, false)); return (double)(pm / fabsl(det) + cf * per / (det * det)); }) }
@@ -434,7 +447,7 @@ template <typename T, int K> static bool quat_one(const T* q, const T* p, const 
   if (s != 0) MCHK("quat / scalar", 0, aq / s, pq / s, pq / s, EXACT, 0, false, zero)
   { bool ea = aq == ap, ep = pq == pp, na = aq != ap, np2 = pq != pp, sa = aq == aq; Ctx c{o, "quat == / != quat", 4, K, 0, 0, 0}; checked += 3; if (ea != ep || na != np2 || !sa) return fail(c, 0, (uint64_t)ea | ((uint64_t)na << 1) | ((uint64_t)sa << 2), (uint64_t)ep | ((uint64_t)np2 << 1) | 4, "quaternion comparison verdicts must be identical"); }
   MCHK("dot(quat, quat)", 0, glm::dot(aq, ap), glm::dot(pq, pp), glm::dot(pq, pp), TOL, 8, false, [&](int) { return adot(q, p, 4); })
-  MCHK("quat * quat", 0, aq * ap, pq * pp, pq * pp, TOL, 8, false, [&](int) { return nq * np; })
+  MCHK("quat * quat", 0, aq * ap, pq * pp, pq * pp, TOL, 16, false, [&](int) { return nq * np; })
   MCHK("length(quat)", 0, glm::length(aq), glm::length(pq), glm::length(pq), TOL, 8, false, [&](int) { return std::sqrt(n2); })
   if (n2 > 0) { MCHK("normalize(quat)", 0, glm::normalize(aq), glm::normalize(pq), glm::normalize(pq), TOL, 16, false, [&](int) { return 1.0; })
     MCHK("inverse(quat)", 0, glm::inverse(aq), glm::inverse(pq), glm::inverse(pq), TOL, 16, false, [&](int) { return nq / n2; }) }
@@ -450,7 +463,7 @@ template <typename T, int K> static bool quat_one(const T* q, const T* p, const 
   return true;
 }
 template <typename T> static void op_quat(const Case& c, Outcome& o) {
-  T q[4], p[4], v[4]; for (int k = 0; k < 4; ++k) { q[k] = val<T>(c.w[k]); p[k] = val<T>(c.w[4 + k]); v[k] = p[(k + 1) & 3]; } T s = q[1] != 0 ? q[1] : (T)3; int checked = 0;
+  T q[4], p[4], v[4]; for (int k = 0; k < 4; ++k) { q[k] = val<T>(c.w[k]); p[k] = val<T>(c.w[4 + k]); } for (int k = 0; k < 4; ++k) v[k] = p[(k + 1) & 3] + (T)(k == 2 ? 1 : 0); T s = q[1] != 0 ? q[1] : (T)3; int checked = 0;
   if (!fin_(q[0] + q[1] + q[2] + q[3] + p[0] + p[1] + p[2] + p[3])) { o.nontrivial = false; return; }
   bool ok = quat_one<T, 0>(q, p, v, s, o, checked) && quat_one<T, 2>(q, p, v, s, o, checked) && quat_one<T, 1>(q, p, v, s, o, checked); (void)ok; if (!checked) o.nontrivial = false;
 }
@@ -602,6 +615,12 @@ template <typename T> static void op_swz2(const Case& c, Outcome& o) { const std
 #endif
 
 // ================================================================================================================ registration
+template <class OP, typename T, int N, int SH> static void RL3(Engine& E) {   // vec3-only registration of a lane-wise op whose vec4 form is ill-formed on the unchanged tree
+  struct H { static void fn(const Case& c, Outcome& o) { const std::vector<T>& lat = spec<T>(); int checked = 0; uint64_t idx[3] = {c.w[0], N > 1 ? c.w[1] : 0, N > 2 ? c.w[2] : 0};
+    bool ok = lw_one<OP, T, 3, 0, N, SH>(lat, lat, idx, o, checked) && lw_one<OP, T, 3, 2, N, SH>(lat, lat, idx, o, checked) && lw_one<OP, T, 3, 1, N, SH>(lat, lat, idx, o, checked); (void)ok; if (!checked) o.nontrivial = false; } };
+  Op& op = E.add(std::string(OP::name()) + " <" + TN<T>::n() + "> vec3 only (the aligned vec4 form does not compile in this configuration) x aligned_{highp,mediump,lowp} vs packed", H::fn);
+  std::vector<Domain> d; for (int n = 0; n < N; ++n) d.push_back(DL<T>(0)); op.quick = {N == 1 ? d[0] : product("SPEC^" + std::to_string(N), d)};
+}
 template <typename T> static void reg_round_select(Engine& E) {     // float / double
   RL<F_abs, T, 1, 0, 0>(E); RL<F_sign, T, 1, 0, 0>(E); RL<F_floor, T, 1, 0, 0>(E); RL<F_ceil, T, 1, 0, 0>(E); RL<F_trunc, T, 1, 0, 0>(E); RL<F_round, T, 1, 0, 0>(E); RL<F_roundEven, T, 1, 0, 0>(E); RL<F_fract, T, 1, 0, 0>(E); RL<F_isnan, T, 1, 0, 0>(E); RL<F_isinf, T, 1, 0, 0>(E);
   RL<F_min, T, 2, 0, 0>(E); RL<F_min, T, 2, 2, 0>(E); RL<F_max, T, 2, 0, 0>(E); RL<F_max, T, 2, 2, 0>(E); RL<F_step, T, 2, 0, 0>(E); RL<F_step, T, 2, 1, 0>(E); RL<F_clamp, T, 3, 0, 0>(E); RL<F_clamp, T, 3, 6, 0>(E);
@@ -609,7 +628,11 @@ template <typename T> static void reg_round_select(Engine& E) {     // float / d
 }
 template <typename T> static void reg_math(Engine& E) {             // float / double
   RL<F_sqrt, T, 1, 0, 0>(E); RL<F_inversesqrt, T, 1, 0, 0>(E); RL<F_exp, T, 1, 0, 0>(E); RL<F_log, T, 1, 0, 0>(E); RL<F_exp2, T, 1, 0, 0>(E); RL<F_log2, T, 1, 0, 0>(E); RL<F_sin, T, 1, 0, 0>(E); RL<F_cos, T, 1, 0, 0>(E); RL<F_atan, T, 1, 0, 0>(E); RL<F_radians, T, 1, 0, 0>(E); RL<F_degrees, T, 1, 0, 0>(E); RL<F_pow, T, 2, 0, 0>(E);
-  RL<F_mod, T, 2, 0, 1>(E); RL<F_mod, T, 2, 2, 1>(E); RL<F_mix, T, 3, 0, 1>(E); RL<F_mix, T, 3, 4, 1>(E); RL<F_smoothstep, T, 3, 0, 1>(E); RL<F_smoothstep, T, 3, 3, 1>(E); RL<F_fma, T, 3, 0, 1>(E); RL<F_fma, T, 3, 0, 0>(E);
+  RL<F_mod, T, 2, 0, 1>(E); RL<F_mod, T, 2, 2, 1>(E); RL<F_mix, T, 3, 0, 1>(E); RL<F_mix, T, 3, 4, 1>(E); RL<F_smoothstep, T, 3, 0, 1>(E); RL<F_smoothstep, T, 3, 3, 1>(E);
+#ifdef C03_NO_DOUBLE_FMA
+  if (std::is_same<T, double>::value) { RL3<F_fma, T, 3, 0>(E); return; }
+#endif
+  RL<F_fma, T, 3, 0, 1>(E); RL<F_fma, T, 3, 0, 0>(E);
 }
 template <typename T> static void reg_arith(Engine& E) {            // every T
   RL<O_add, T, 2, 0, 0>(E); RL<O_add, T, 2, 2, 0>(E); RL<O_add, T, 2, 1, 0>(E); RL<O_sub, T, 2, 0, 0>(E); RL<O_sub, T, 2, 2, 0>(E); RL<O_sub, T, 2, 1, 0>(E); RL<O_mul, T, 2, 0, 0>(E); RL<O_mul, T, 2, 2, 0>(E); RL<O_mul, T, 2, 1, 0>(E);
@@ -624,12 +647,6 @@ template <typename T> static void reg_int(Engine& E) {              // int / uin
   RL<O_rem, T, 2, 0, 0>(E); RL<O_rem, T, 2, 2, 0>(E); RL<O_and, T, 2, 0, 0>(E); RL<O_and, T, 2, 2, 0>(E); RL<O_or, T, 2, 0, 0>(E); RL<O_or, T, 2, 2, 0>(E); RL<O_xor, T, 2, 0, 0>(E); RL<O_xor, T, 2, 2, 0>(E); RL<O_shl, T, 2, 0, 2>(E); RL<O_shl, T, 2, 2, 2>(E); RL<O_shr, T, 2, 0, 2>(E); RL<O_shr, T, 2, 2, 2>(E);
   RL<C_rema, T, 2, 0, 0>(E); RL<C_anda, T, 2, 2, 0>(E); RL<C_ora, T, 2, 0, 0>(E); RL<C_xora, T, 2, 2, 0>(E); RL<C_shla, T, 2, 2, 2>(E); RL<C_shra, T, 2, 0, 2>(E); RL<U_not, T, 1, 0, 0>(E);
   RL<F_lessThan, T, 2, 0, 0>(E); RL<F_greaterThanEqual, T, 2, 0, 0>(E); RL<F_equal, T, 2, 0, 0>(E); RL<F_notEqual, T, 2, 0, 0>(E); RL<F_findLSB, T, 1, 0, 0>(E);
-}
-template <class OP, typename T, int N, int SH> static void RL3(Engine& E) {   // vec3-only registration of a lane-wise op whose vec4 form is ill-formed on the unchanged tree
-  struct H { static void fn(const Case& c, Outcome& o) { const std::vector<T>& lat = spec<T>(); int checked = 0; uint64_t idx[3] = {c.w[0], N > 1 ? c.w[1] : 0, N > 2 ? c.w[2] : 0};
-    bool ok = lw_one<OP, T, 3, 0, N, SH>(lat, lat, idx, o, checked) && lw_one<OP, T, 3, 2, N, SH>(lat, lat, idx, o, checked) && lw_one<OP, T, 3, 1, N, SH>(lat, lat, idx, o, checked); (void)ok; if (!checked) o.nontrivial = false; } };
-  Op& op = E.add(std::string(OP::name()) + " <" + TN<T>::n() + "> vec3 only (the aligned vec4 form does not compile in this configuration) x aligned_{highp,mediump,lowp} vs packed", H::fn);
-  std::vector<Domain> d; for (int n = 0; n < N; ++n) d.push_back(DL<T>(0)); op.quick = {N == 1 ? d[0] : product("SPEC^" + std::to_string(N), d)};
 }
 template <typename T> static void reg_int_guarded(Engine& E) {
 #ifndef C03_NO_INT_MINMAX
